@@ -24,7 +24,7 @@ VARIABLES l, m, viol
 vars == <<l, m, viol>>
 
 Stats0 == [cmds |-> 0, cbs |-> 0, units |-> 0, rows |-> 0, pvs |-> 0, pkts |-> 0, rds |-> 0]
-M0 == [run |-> "", kind |-> "", shim |-> "program", tls |-> FALSE, ctls |-> FALSE, auth |-> "accept", mode |-> "pipelined",
+M0 == [run |-> "", kind |-> "", shim |-> "program", tls |-> FALSE, ctls |-> FALSE, ccert |-> FALSE, auth |-> "accept", mode |-> "pipelined",
        phase |-> "greet", inb |-> << >>, q |-> << >>, ob |-> << >>, unfl |-> 0, cur |-> 0,
        reg |-> << >>, lost |-> FALSE, free |-> FALSE, fault |-> FALSE, eof |-> FALSE, dead |-> "", token |-> -1,
        quit |-> FALSE, enc |-> FALSE, raw |-> << >>, hsdone |-> FALSE, blocked |-> FALSE,
@@ -51,7 +51,7 @@ RECURSIVE Advance(_)
 \* let the reference server pass over commands that need no callback
 Advance(mm) ==
   LET i == FirstNew(mm.q) IN
-  IF i = 0 \/ mm.dead # "" \/ mm.quit \/ mm.free THEN mm
+  IF i = 0 \/ mm.dead # "" \/ mm.quit \/ mm.free \/ mm.cur # 0 THEN mm   \* (inside a callback the server is not advancing)
   ELSE LET e == mm.q[i] c == e.cls IN
     IF c.kind = "hs" THEN
       LET h == DecHandshakeResponse(e.p, mm.enc) IN
@@ -193,7 +193,7 @@ Consume(mm, v, at, strict) ==
     ELSE LET r == Messages(mm.ob)
              j == JudgeReply(mm, e, r.msgs, at)
          IN IF ~j.done THEN
-              (IF e.st = "ret" \/ strict
+              (IF (e.st = "ret" /\ ~(mm.enc /\ mm.ctls)) \/ strict
                THEN [m |-> [mm EXCEPT !.lost = TRUE], v |-> v \cup {V("C03", at, "response missing or incomplete for a " \o e.cls.kind \o " command")}]
                ELSE [m |-> mm, v |-> v])
             ELSE LET mm2 == [mm EXCEPT !.q = Tail(@), !.cur = IF @ > 0 THEN @ - 1 ELSE 0, !.ob = AfterMsgs(mm.ob, r.msgs, j.used),
@@ -213,8 +213,8 @@ SyncViol(mm, at) ==
 RECURSIVE TlsStrip(_)
 TlsStrip(s) ==
   IF Len(s) < 5 THEN [ok |-> TRUE, rest |-> s]
-  ELSE IF s[1] \notin {20, 21, 22, 23} \/ s[2] # 3 \/ s[4] + 256 * s[3] > 18432 THEN [ok |-> FALSE, rest |-> s]
-  ELSE LET n == s[4] + 256 * s[3] IN
+  ELSE IF s[1] \notin {20, 21, 22, 23} \/ s[2] # 3 \/ s[5] + 256 * s[4] > 18432 THEN [ok |-> FALSE, rest |-> s]
+  ELSE LET n == s[5] + 256 * s[4] IN
        IF Len(s) < 5 + n THEN [ok |-> TRUE, rest |-> s] ELSE TlsStrip(From(s, 6 + n))
 
 \* ---- parameter values seen by the shim (C08, C16, C17) ----
@@ -243,7 +243,7 @@ Step ==
   /\ LET e == Rec[l] IN
      CASE e.e = "begin" ->
             /\ m' = IF e.kind = "conn"
-                    THEN [M0 EXCEPT !.run = e.run, !.kind = e.kind, !.shim = e.shim, !.tls = e.tls, !.ctls = e.ctls, !.auth = e.auth, !.mode = e.mode]
+                    THEN [M0 EXCEPT !.run = e.run, !.kind = e.kind, !.shim = e.shim, !.tls = e.tls, !.ctls = e.ctls, !.ccert = e.ccert, !.auth = e.auth, !.mode = e.mode]
                     ELSE [M0 EXCEPT !.run = e.run, !.kind = e.kind]
             /\ viol' = {}
        [] e.e = "wr" ->
@@ -293,7 +293,8 @@ Step ==
                                 ELSE IF e.name = "auth" THEN
                                   LET h == DecHandshakeResponse(q.p, mm.enc) IN
                                   (IF e.has_user # h.hasuser \/ e.user # h.user THEN {V("C11", l, "user name passed to after_authentication differs from the client's")} ELSE {})
-                                  \cup (IF mm.enc /\ mm.ctls /\ e.ncerts < 0 THEN {V("C18", l, "no TLS peer information passed to after_authentication")} ELSE {})
+                                  \cup (IF mm.enc /\ mm.ctls /\ mm.ccert /\ e.ncerts < 1 THEN {V("C18", l, "the client's certificate chain did not reach after_authentication")} ELSE {})
+                                  \cup (IF ~(mm.enc /\ mm.ctls /\ mm.ccert) /\ e.ncerts > 0 THEN {V("C18", l, "certificates reported although the client presented none")} ELSE {})
                                 ELSE IF e.name \in {"on_execute", "on_close"} THEN
                                   (IF e.id # c.arg THEN {V("C02", l, "statement id passed to " \o e.name \o " differs"), V("C10", l, "statement id passed to " \o e.name \o " differs")} ELSE {})
                                 ELSE IF c.judge /\ e.text # c.arg THEN {V("C02", l, "argument of " \o e.name \o " differs from what the client sent"), V("C01", l, "argument of " \o e.name \o " differs from the bytes the client sent")}
@@ -437,9 +438,12 @@ Step ==
                                     {V("C03", l, "command never answered: run_on panicked")}
                                     \cup (IF mm.q[i].seq = 255 THEN {V("C05", l, "request with sequence id 255 is not answered with sequence id 0 (panic)")} ELSE {})
                           ELSE {}
+                \* a connection that was upgraded to TLS and on which nothing failed must be served to the end
+                vtls == IF mm.ctls /\ mm.enc /\ mm.dead = "" /\ ~mm.fault /\ ~mm.free /\ res # "ok"
+                        THEN {V("C18", l, "connection not served after the TLS upgrade (result " \o res \o ")")} ELSE {}
                 vblock == IF mm.blocked /\ ~mm.lost THEN {V("C12", l, "lock-step client blocked: the server waited for input while the client was waiting for a reply")} ELSE {}
             IN /\ m' = [mm EXCEPT !.done = TRUE]
-               /\ viol' = r0.v \cup vres \cup vsync \cup vblock \cup vpanic
+               /\ viol' = r0.v \cup vres \cup vsync \cup vblock \cup vpanic \cup vtls
        [] OTHER -> UNCHANGED <<m, viol>>
 
 Spec == Init /\ [][Step]_vars
